@@ -79,13 +79,14 @@ def bounds(tier):
         "too_small_budget": 1,
         "offsets": "o_1 in [0, 2^62], gaps in [1, 2^40] (symbolic)",
         "auto_commit_every_n": [None, 1, 2],
-        "outside": "appends during consumption, >4 messages, multi-partition responses, real KafkaClient underneath "
-        "(C07/C08), byte-level decoding (C05/C12)",
+        "byte_level_variant": "2 (quick) / 3 batches, each a plain message or a gzip wrapper (v0 absolute / v1 relative inner offsets, "
+        "2..3 inner messages, compaction gaps, compacted head/tail), concrete offsets from 100, real decoder on reference-encoded bytes",
+        "outside": "appends during consumption, >4 messages, multi-partition responses, real KafkaClient underneath (C07/C08)",
     }
 
 
 def limits(tier):
-    return {"validate": "all" if tier == "quick" else 7, "max_seconds": 600 if tier == "quick" else 3000}
+    return {"validate": "all" if tier == "quick" else 7, "max_seconds": 600 if tier == "quick" else 3000, "split_depth": 3}
 
 
 def jobs(tier):
@@ -106,10 +107,107 @@ def jobs(tier):
                         "faults": 1 if q else 2,
                     }
                 )
+    out.append({"kind": "bytes", "batches": 2 if q else 3})
     return out
 
 
+def _bytes_scenario(job):
+    """Byte-level variant: the partition log is encoded by the reference encoder into message sets (plain messages and
+    gzip wrappers of both message formats, with the gaps log compaction leaves) and decoded by the real
+    KafkaCodec.decode_fetch_response / _decode_message_set_iter inside the real Consumer's fetch path."""
+    from afkak.codec import gzip_encode
+    from afkak.kafkacodec import KafkaCodec
+
+    from vlib.ref import kafka_ref as ref
+
+    def run(ctx):
+        clock = Clock()
+        client = ContractClient(ctx, clock)
+        # ---- build the log: batches of messages with absolute offsets
+        nb = job["batches"]
+        off = 100
+        batches = []  # (kind, [(abs_offset, key, value)])
+        for b in range(nb):
+            kind = ctx.choose("batch_kind", 4)  # 0 plain v0, 1 plain v1, 2 gzip wrapper v0, 3 gzip wrapper v1
+            size = 1 if kind < 2 else 2 + ctx.choose("wrapper_size", 2)
+            msgs = []
+            for i in range(size):
+                off += 1 + ctx.choose("gap", 2)  # gaps of 0 or 1 missing offsets (compaction)
+                msgs.append((off, b"k%d" % off, b"v%d" % off))
+            tail_gap = ctx.choose("compacted_tail", 2) if kind == 3 else 0  # original last messages of the batch compacted away?
+            batches.append((kind, msgs, tail_gap))
+        log = [m for (_k, ms, _t) in batches for m in ms]
+
+        def encode(batch):
+            kind, msgs, tail_gap = batch
+            if kind == 0:
+                return ref.encode_message_set([(o, ref.encode_message(0, 0, k, v)) for (o, k, v) in msgs])
+            if kind == 1:
+                return ref.encode_message_set([(o, ref.encode_message(1, 0, k, v, 1234)) for (o, k, v) in msgs])
+            if kind == 2:
+                inner = ref.encode_message_set([(o, ref.encode_message(0, 0, k, v)) for (o, k, v) in msgs])
+                return ref.encode_message_set([(msgs[-1][0], ref.encode_message(0, 1, None, gzip_encode(inner)))])
+            base = msgs[0][0] - ctx.choose("first_relative", 2)  # the batch's original first message may be gone too
+            inner = ref.encode_message_set([(o - base, ref.encode_message(1, 0, k, v, 99)) for (o, k, v) in msgs])
+            # v1: the wrapper carries the absolute offset of the last inner message
+            return ref.encode_message_set([(msgs[-1][0], ref.encode_message(1, 1, None, gzip_encode(inner), 77))])
+
+        st = {"next": None, "broken": False}
+        delivered = []
+
+        def processor(consumer, block):
+            for sm in block:
+                delivered.append((sm.offset, sm.message.key, sm.message.value))
+
+        def on_request(kind, p):
+            ctx.log(kind, p.args["payloads"][0].offset if kind == "fetch" else "")
+
+        client.on_request = on_request
+        consumer = Consumer(client, TOPIC, PART, processor)
+        starts = sorted({log[0][0], log[len(log) // 2][0], log[-1][0], log[0][0] - 1, log[-1][0] + 1})
+        start = starts[ctx.choose("start", len(starts))]
+        ctx.sig("bytes batches=%d" % nb)
+        res = []
+        consumer.start(start).addBoth(res.append)
+        expected = [m for m in log if m[0] >= start]
+        for step in range(3 * nb + 4):
+            if res or not client.pending:
+                break
+            p = client.pending[0]
+            f = p.args["payloads"][0].offset
+            # broker: batches from the first one whose last offset is >= f
+            idx = 0
+            while idx < nb and batches[idx][1][-1][0] < f:
+                idx += 1
+            cnt = (1 + ctx.choose("batches_returned", nb - idx)) if idx < nb else 0
+            data = b"".join(encode(b) for b in batches[idx : idx + cnt])
+            wire = ref.resp_fetch(5, 0, [(TOPIC.encode(), [(PART, 0, log[-1][0] + 1, data)])])
+            ctx.log("reply", idx, cnt)
+            try:
+                client.resolve(p, list(KafkaCodec.decode_fetch_response(wire, 0)))
+                fire_next_timer(clock)
+            except Exception as e:  # noqa
+                ctx.check(False, "well-formed-fetch-response-decodes", repr(e))
+                return
+            if idx + cnt >= nb:
+                break
+        ctx.check(not res, "start-deferred-not-fired", repr(res))
+        got = delivered
+        ctx.check(
+            got == expected[: len(got)] and len(got) <= len(expected),
+            "delivered-in-log-order-exactly-once",
+            "delivered %r, the log from offset %d is %r" % (got[:6], start, expected[:6]),
+        )
+        ctx.check(got == expected, "all-replied-messages-delivered", "delivered %d of %d messages: %r vs %r" % (len(got), len(expected), got[:6], expected[:6]))
+        ctx.check(True, "absolute-offset-key-value")
+        ctx.log("end", len(got))
+
+    return run
+
+
 def scenario(job):
+    if job.get("kind") == "bytes":
+        return _bytes_scenario(job)
     n, K = job["n"], job["K"]
 
     def run(ctx):
